@@ -46,22 +46,24 @@ theorem iterate_cols (N : NumOps α) (P : Params α) {n : Nat} (sys : List (SysZ
   | succ f ih =>
     intro k st
     simp only [iterate]
+    -- the state after the kernel and the (optional) tridiagonal block
+    generalize hst2 : (if (decide (0 < P.nTridiag) && decide (k < nT) && st.updTri) = true then
+        ({ st with cs := triCols N k (stepCols N P sys st.cs), iters := st.iters + 1,
+                   trace := (st.cs.map fun ct => ct.1.p) :: st.trace, lastTri := k,
+                   updTri := !(decide (k ≠ 0) && N.lt (lmax N (offDiags k (triCols N k (stepCols N P sys st.cs)))) P.triOff) } : St α n)
+      else { st with cs := stepCols N P sys st.cs, iters := st.iters + 1,
+                     trace := (st.cs.map fun ct => ct.1.p) :: st.trace }) = st2
+    have h2i : st2.iters = st.iters + 1 := by subst hst2; split <;> rfl
+    have h2c : st2.cs.map Prod.fst = stepAll N P sys (st.cs.map Prod.fst) := by
+      subst hst2; split
+      · simp only [triCols_fst, stepCols_fst]
+      · simp only [stepCols_fst]
     split
-    · exact ⟨1, by omega, rfl, by simp [iterAll, stepCols_fst]⟩
-    · split
-      · obtain ⟨m, hm, h1, h2⟩ := ih (k + 1)
-          { st with cs := triCols N k (stepCols N P sys st.cs), iters := st.iters + 1,
-                    trace := (st.cs.map fun ct => ct.1.p) :: st.trace, lastTri := k,
-                    updTri := !(decide (k ≠ 0) && N.lt (lmax N (offDiags k (triCols N k (stepCols N P sys st.cs)))) P.triOff) }
-        refine ⟨m + 1, by omega, ?_, ?_⟩
-        · rw [h1]; simp only; omega
-        · rw [h2, iterAll_succ']; simp only [triCols_fst, stepCols_fst]
-      · obtain ⟨m, hm, h1, h2⟩ := ih (k + 1)
-          { st with cs := stepCols N P sys st.cs, iters := st.iters + 1,
-                    trace := (st.cs.map fun ct => ct.1.p) :: st.trace }
-        refine ⟨m + 1, by omega, ?_, ?_⟩
-        · rw [h1]; simp only; omega
-        · rw [h2, iterAll_succ']; simp only [stepCols_fst]
+    · exact ⟨1, by omega, h2i, by simpa [iterAll] using h2c⟩
+    · obtain ⟨m, hm, h1, h2⟩ := ih (k + 1) st2
+      refine ⟨m + 1, by omega, ?_, ?_⟩
+      · rw [h1, h2i]; omega
+      · rw [h2, iterAll_succ', h2c]
 
 theorem stepAll_map (N : NumOps α) (P : Params α) {n : Nat} {ι : Type} (l : List ι) (f : ι → SysZ α n)
     (g : ι → Col α n) :
